@@ -10,6 +10,7 @@ from pathlib import Path
 VERIF = Path(__file__).resolve().parent.parent
 SPEC = VERIF / "spec"
 WORK = VERIF / ".work"
+TLA_CP = "/opt/veriftools/tla/tla2tools.jar:/opt/veriftools/tla/CommunityModules-deps.jar"
 
 
 def workdir(prefix="w"):
@@ -68,11 +69,12 @@ def tlc(module, cfg, *, workers="auto", env=None, timeout=1800, extra=(), deque=
     e = dict(os.environ)
     if env:
         e.update({k: str(v) for k, v in env.items()})
-    opts = "-XX:+UseParallelGC"
+    # java is started directly (not through the `tlc` wrapper) so that -Xss also applies to the main thread,
+    # in which TLC evaluates initial states and constant expressions (deep recursive operators)
+    jopts = ["-XX:+UseParallelGC", "-Xss512m"]
     if deque:
-        opts += " -Dtlc2.tool.queue.IStateQueue=StateDeque"
-    e["JAVA_TOOL_OPTIONS"] = (e.get("JAVA_TOOL_OPTIONS", "") + " " + opts).strip()
-    cmd = ["tlc", "-workers", str(workers), "-metadir", str(meta), "-noGenerateSpecTE", "-config", str(cfg)]
+        jopts.append("-Dtlc2.tool.queue.IStateQueue=StateDeque")
+    cmd = ["java"] + jopts + ["-cp", TLA_CP, "tlc2.TLC", "-workers", str(workers), "-metadir", str(meta), "-noGenerateSpecTE", "-config", str(cfg)]
     if coverage:
         cmd += ["-coverage", "1"]
     cmd += list(extra) + [str(module)]
